@@ -19,8 +19,11 @@ import time
 import traceback
 
 ROOT = os.path.dirname(os.path.dirname(os.path.abspath(__file__)))
-EVIDENCE = os.path.join(ROOT, "evidence")
-REPLAYS = os.path.join(ROOT, "replays")
+# PV_OUT redirects evidence/replays (used only by tools/seedmatrix.sh, which runs the
+# checks against scratch worktrees with seeded changes; the registered commands never set it)
+OUT = os.environ.get("PV_OUT", ROOT)
+EVIDENCE = os.path.join(OUT, "evidence")
+REPLAYS = os.path.join(OUT, "replays")
 KNOWN = os.path.join(ROOT, "known_findings.json")
 
 VIOLATION_STATUSES = ("violation", "engine-error", "structural-fail")
